@@ -356,7 +356,7 @@ def exc6(ctx, pid):
         return t
 
     grid_t = [KV, BR, LF, 3, 4, 255]
-    grid_n = [1, 2, 32, 33, 34, 64, 65, 66, 100]
+    grid_n = [1, 2, 3, 16, 17, 31, 32, 33, 34, 64, 65, 66, 100]  # incl. lengths below 32, where `len(node) - 32` goes negative
     probs = []
     table = {}
     for t in grid_t:
